@@ -53,9 +53,33 @@ func violates(t *testing.T, spec syncdrv.ChainSpec, hist []syncdrv.Item, tmp, si
 }
 
 
-// daStream runs the DA-ingress scenarios (real RetrieveLoop + SyncLoop on a scripted DA layer, stop at a
-// generated instant, restart, converge).  Oracle only.
-func daStream(t *testing.T, e *vgen.Env, res *vgen.Result, tmp string, crash bool, replay *syncdrv.DAScenario) {
+// shrinkHist: greedy one-at-a-time removal for short histories; for long ones (hundreds of events, every
+// evaluation re-runs the whole history on a real node) removal of blocks of halving size under a budget of
+// evaluations — the result still fails, it is just not minimal.
+func shrinkHist(hist []syncdrv.Item, fails func([]syncdrv.Item) bool) []syncdrv.Item {
+	if len(hist) <= 60 {
+		return vgen.Shrink(hist, fails)
+	}
+	cur := hist
+	budget := 40
+	for size := len(cur) / 2; size >= 1 && budget > 0; size /= 2 {
+		for at := 0; at+size <= len(cur) && budget > 0; {
+			cand := append(append([]syncdrv.Item{}, cur[:at]...), cur[at+size:]...)
+			budget--
+			if fails(cand) {
+				cur = cand
+			} else {
+				at += size
+			}
+		}
+	}
+	return cur
+}
+
+// daStream runs the DA-ingress scenarios (real RetrieveLoop + SyncLoop on a scripted DA layer whose requests may
+// come back with errors of every class, stop at a generated instant, restart, converge).  Go oracle + cases for
+// Check.DAIngressCheck (third cases file).
+func daStream(t *testing.T, e *vgen.Env, res *vgen.Result, tmp string, crash bool, replay *syncdrv.DAScenario) string {
 	var scs []syncdrv.DAScenario
 	if replay != nil {
 		scs = append(scs, *replay)
@@ -79,8 +103,17 @@ func daStream(t *testing.T, e *vgen.Env, res *vgen.Result, tmp string, crash boo
 			sc.Crash = crash
 			scs = append(scs, sc)
 		}
+		// requests that come back with errors: every class x {GetIDs, Get, a request that hangs} in every run
+		nf := 3 * syncdrv.NumDAErrClasses
+		if e.Tier == "thorough" {
+			nf *= 4
+		}
+		for c := 0; c < nf; c++ {
+			scs = append(scs, syncdrv.GenDAFaults(syncdrv.CaseRng(e.Seed+3313, c), c+int(e.Seed%7+7)))
+		}
 	}
-	for _, sc := range scs {
+	var cases []string
+	for k, sc := range scs {
 		c, err := syncdrv.ChainFor(sc.Chain, tmp)
 		if err != nil {
 			t.Fatalf("producing the chain: %v", err)
@@ -91,18 +124,44 @@ func daStream(t *testing.T, e *vgen.Env, res *vgen.Result, tmp string, crash boo
 		if sc.Backlog > 0 {
 			res.Count("da-ingress:backlog-of-channel-capacity")
 		}
+		if len(sc.Faults) > 0 {
+			res.Count("da-ingress:scenarios-with-failing-requests")
+		}
 		if r.StoppedAt {
 			res.Count("da-ingress:stopped-right-after-a-commit")
 		}
 		if r.HeightEnd > r.HeightStop {
 			res.Count("da-ingress:progress-after-restart")
 		}
-		scc := sc
-		for _, v := range r.Viol {
-			res.Violations = append(res.Violations, vgen.Violation{Signature: v.Sig, What: v.What, Case: -1,
-				Replay: syncdrv.Replay{Seed: e.Seed, Case: -1, Chain: sc.Chain, DA: &scc}})
+		for k, v := range r.FaultsServed {
+			res.Distribution["da-ingress:request-failed:"+k] += v
 		}
+		res.Distribution["da-ingress:retrieve-rounds"] += r.Rounds
+		for _, p := range r.Procs {
+			res.Distribution["da-ingress:requests-served"] += len(p.Reqs)
+			if p.Quiescent {
+				res.Count("da-ingress:processes-run-to-quiescence")
+			}
+		}
+		idx := 200000 + k
+		scc := sc
+		rp := syncdrv.Replay{Seed: e.Seed, Case: idx, Chain: sc.Chain, DA: &scc}
+		for _, v := range r.Viol {
+			res.Violations = append(res.Violations, vgen.Violation{Signature: v.Sig, What: v.What, Case: idx, Replay: rp})
+		}
+		if len(r.Procs) > 0 {
+			cases = append(cases, r.CoqCase())
+		} else {
+			cases = append(cases, syncdrv.DABadCase)
+		}
+		res.Replays[fmt.Sprint(idx)] = rp
 	}
+	res.Cases += len(cases)
+	path := filepath.Join(e.Out, "cases_C02_da.v")
+	if err := vgen.WriteCases(path, syncdrv.DACoqHeader, nil, "dcase", cases, "mismatches"); err != nil {
+		t.Fatal(err)
+	}
+	return path
 }
 
 // p2pChains: the two long chains all P2P-ingress scenarios of one run share (producing a chain with the real
@@ -207,8 +266,9 @@ func TestVerif(t *testing.T) {
 	}
 	defer os.RemoveAll(tmp)
 	type job struct {
-		rp  syncdrv.Replay
-		gen bool
+		rp      syncdrv.Replay
+		gen     bool
+		backlog bool
 	}
 	var jobs []job
 	if e.Replay != "" {
@@ -238,9 +298,18 @@ func TestVerif(t *testing.T) {
 			spec, hist := genCase(e.Seed, c, e.Tier)
 			jobs = append(jobs, job{rp: syncdrv.Replay{Seed: e.Seed, Case: c, Chain: spec, History: hist}, gen: true})
 		}
+		// long backlogs behind one missing block, the hole filled last (one per size stratum; thorough: two)
+		nbk := len(syncdrv.BacklogSizes)
+		if e.Tier == "thorough" {
+			nbk *= 2
+		}
+		for c := 0; c < nbk; c++ {
+			spec, hist := syncdrv.GenBacklog(syncdrv.CaseRng(e.Seed+2671, c), c)
+			jobs = append(jobs, job{rp: syncdrv.Replay{Seed: e.Seed, Case: e.N + c, Chain: spec, History: hist}, gen: true, backlog: true})
+		}
 	}
 	if e.Replay == "" {
-		daStream(t, e, res, tmp, false, nil)
+		res.CaseFiles = append(res.CaseFiles, daStream(t, e, res, tmp, false, nil))
 		path, _ := p2pStream(t, e, res, tmp, nil)
 		res.CaseFiles = append(res.CaseFiles, path)
 	}
@@ -270,6 +339,11 @@ func TestVerif(t *testing.T) {
 			res.Count("chain:equal-non-empty-tx-lists")
 		}
 		res.Count(fmt.Sprintf("signature-payload-provider:%d", spec.Provider))
+		if j.backlog {
+			res.Count("backlog:histories")
+			res.Count(fmt.Sprintf("backlog:chain-blocks:%03d+", (len(c.Headers)/50)*50))
+			res.Count(fmt.Sprintf("backlog:most-blocks-applied-while-one-item-was-handled:%03d+", (cr.MaxStep/50)*50))
+		}
 		pendingAtRestart := false
 		for _, it := range hist {
 			res.Count("item:" + it.T)
@@ -303,7 +377,7 @@ func TestVerif(t *testing.T) {
 		}
 		for _, v := range cr.Viol {
 			sig := v.Sig
-			sh := vgen.Shrink(hist, func(h []syncdrv.Item) bool { return violates(t, spec, h, tmp, sig) })
+			sh := shrinkHist(hist, func(h []syncdrv.Item) bool { return violates(t, spec, h, tmp, sig) })
 			res.Violations = append(res.Violations, vgen.Violation{Signature: sig, What: v.What, Case: ji,
 				Replay: syncdrv.Replay{Seed: j.rp.Seed, Case: j.rp.Case, Chain: spec, History: sh}})
 		}
